@@ -1380,3 +1380,14 @@ func (p *PathConds) openPredicates(d dnf) dnf {
 	out.cs = simplify(out.cs)
 	return out
 }
+
+// dnfAndLit: d ∧ lit.
+func dnfAndLit(d dnf, lit string) dnf {
+	out := dnf{unknown: d.unknown}
+	for _, c := range d.cs {
+		if n, ok := conjAdd(c, lit); ok {
+			out.cs = append(out.cs, n)
+		}
+	}
+	return out
+}
